@@ -203,7 +203,7 @@ func c11Judge(cs *core.Case, kinds []int) {
 func runC11(c *core.Ctx) {
 	maxLen := 4
 	if c.Thorough() {
-		maxLen = 6
+		maxLen = 7
 	}
 	var total uint64
 	pow := uint64(1)
@@ -228,7 +228,7 @@ func runC11(c *core.Ctx) {
 		cs.DistinctN(1)
 		c11Judge(cs, kinds)
 	})
-	c.Section("random-long", c.N(40000, 1000000), func(cs *core.Case) {
+	c.Section("random-long", c.N(40000, 10000000), func(cs *core.Case) {
 		r := cs.R
 		n := 1 + r.Intn(40)
 		kinds := make([]int, n)
